@@ -197,3 +197,297 @@ func ambiguousLengthIsDerived(c *Ctx) bool {
 	}
 	return n > 0 && good
 }
+
+// ruleAmbiguitySearchSeesSplits is C17.R7: the tree stores a route as a chain of nodes that may cut a parameter's
+// literal suffix in two ("{id}/a" + "uthor" once /posts/{id}/author and /posts/{id}/about are both registered), while
+// the pattern being registered arrives as whole segments ("{key}/author"). The ambiguity search (the recursive
+// function below Tree.Add whose verdict comes from Segment.IsAmbiguous) is evaluated symbolically for one generic
+// child and the first segment of the remaining pattern, in three scenarios:
+//
+//	split   the child's segment agrees with the pattern's in kind and constraint, the names differ, and the child's
+//	        suffix is a strict prefix of the pattern segment's suffix            → some path descends into the child
+//	whole   as above with equal suffixes                                           → some path descends into the child
+//	other   the constraints differ                                                 → no path descends into the child
+//
+// "Some path": the number of bytes to skip is arithmetic on lengths that the evaluation leaves open.
+func ruleAmbiguitySearchSeesSplits(c *Ctx, rule string) {
+	c.R.Rule(c.R.Property+"."+rule, 3, "the ambiguity search follows a live route through nodes that split a parameter's literal suffix: a pattern identical up to names is rejected whatever other routes shaped the tree")
+	search := ambiguitySearch(c)
+	if search == nil {
+		c.R.Add(rule, c.fk(c.A.TreeAdd), "ambiguity-search/exists", c.P.Pos(c.A.TreeAdd.Pos()), false, "no recursive search below Tree.Add consults the segment ambiguity verdict any more")
+		return
+	}
+	type scen struct {
+		name                       string
+		sameRule, sameSuffix, want bool
+	}
+	for _, sc := range []scen{{"split-suffix", true, false, true}, {"whole-segment", true, true, true}, {"other-constraint", false, true, false}} {
+		se := &symEval{c: c}
+		se.field = func(base, field string) string {
+			switch {
+			case base == "N" && field == c.A.FChildren:
+				return "KIDS"
+			case base == "C" && field == c.A.FSegment:
+				return "SEG"
+			}
+			return ""
+		}
+		se.elem = func(coll string) string {
+			switch coll {
+			case "KIDS":
+				return "C"
+			case "SEGS":
+				return "S0"
+			}
+			return ""
+		}
+		se.nonEmpty = func(coll string) bool { return coll == "KIDS" }
+		pair := func(e, op, field string) bool {
+			return e == op+"(SEG."+field+",S0."+field+")" || e == op+"(S0."+field+",SEG."+field+")"
+		}
+		se.truth = func(e string) int {
+			switch e {
+			case `EQ(PATTERN,CONST:"")`, "NE(NIL,NIL)", "HASPREFIX(PATTERN,SEG.Value)":
+				return -1
+			case `NE(PATTERN,CONST:"")`, "EQ(NIL,NIL)":
+				return 1
+			case "HASPREFIX(S0.Suffix,SEG.Suffix)":
+				return 1
+			case "HASPREFIX(SEG.Suffix,S0.Suffix)":
+				return pm(sc.sameSuffix)
+			case "GE(LEN(SEG.Suffix),LEN(S0.Suffix))", "LE(LEN(S0.Suffix),LEN(SEG.Suffix))":
+				return pm(sc.sameSuffix)
+			case "LT(LEN(SEG.Suffix),LEN(S0.Suffix))", "GT(LEN(S0.Suffix),LEN(SEG.Suffix))":
+				return pm(!sc.sameSuffix)
+			case "EQ(LEN(SEG.Suffix),LEN(S0.Suffix))", "EQ(LEN(S0.Suffix),LEN(SEG.Suffix))":
+				return pm(sc.sameSuffix)
+			}
+			// kind: both are parameter segments of the same kind
+			if strings.HasPrefix(e, "EQ(SEG.Type,CONST:") || strings.HasPrefix(e, "EQ(S0.Type,CONST:") {
+				return -1 // not the literal kind (the only kind a constant comparison singles out here)
+			}
+			if strings.HasPrefix(e, "NE(SEG.Type,CONST:") || strings.HasPrefix(e, "NE(S0.Type,CONST:") {
+				return 1
+			}
+			for _, f := range []struct {
+				field string
+				same  bool
+			}{{"Type", true}, {"Endpoint", sc.sameSuffix}, {"rule", sc.sameRule}, {"Suffix", sc.sameSuffix}, {"ambiguousLength", sc.sameSuffix}, {"ignoreName", true}, {"Name", false}} {
+				if pair(e, "EQ", f.field) {
+					return pm(f.same)
+				}
+				if pair(e, "NE", f.field) {
+					return pm(!f.same)
+				}
+			}
+			return 0
+		}
+		se.model = func(se *symEval, name string, call *ssa.CallCommon, args []sval, st *sstate) ([]sval, bool) {
+			switch {
+			case name == "strings.HasPrefix" && len(args) == 2:
+				return []sval{sv("HASPREFIX(" + args[0].e + "," + args[1].e + ")")}, true
+			case name == "strings.CutPrefix" && len(args) == 2:
+				return []sval{{e: "TUPLE", tuple: []sval{sv("CUT(" + args[0].e + "," + args[1].e + ")"), sv("HASPREFIX(" + args[0].e + "," + args[1].e + ")")}}}, true
+			case name == "syntax.(*Interceptors).Split":
+				return []sval{{e: "TUPLE", tuple: []sval{sv("SEGS"), sv("NIL")}}}, true
+			case name == an.FuncKey(search):
+				st.effects = append(st.effects, "DESCEND("+args[0].e+")")
+				return []sval{{e: "TUPLE", tuple: []sval{sv("FOUND?"), sv("NONSTRING?"), sv("NIL")}}}, true
+			}
+			return nil, false
+		}
+		args := []sval{sv("N"), sv("PATTERN")}
+		for range search.Params[2:] {
+			args = append(args, sv("FLAG"))
+		}
+		outs := se.outcomes(search, args)
+		descends, undecided := 0, ""
+		for _, o := range outs {
+			for _, e := range o.effects {
+				if e == "DESCEND(C)" {
+					descends++
+				}
+			}
+			if strings.Contains(o.ret, "UNK:") {
+				undecided = o.ret
+			}
+		}
+		if len(outs) == 0 || (descends == 0 && undecided != "") {
+			c.R.Note("%s: the ambiguity search could not be evaluated in scenario %s (%s)", rule, sc.name, undecided)
+			continue
+		}
+		good := (descends > 0) == sc.want
+		msg := ""
+		switch {
+		case good && sc.want:
+			msg = fmt.Sprintf("the search descends into the child (%d of %d evaluated paths)", descends, len(outs))
+		case good:
+			msg = "no evaluated path descends into a child whose constraint differs"
+		case sc.name == "split-suffix":
+			msg = "a child that holds only the first part of the pattern segment's literal suffix (the tree split it: {id}/a + uthor) is not followed: after /posts/{id}/author and /posts/{id}/about, /posts/{key}/author is accepted although it differs from a live route only in a parameter name"
+		case sc.want:
+			msg = "a child identical to the pattern's segment up to the parameter name is not followed: patterns identical up to names are accepted"
+		default:
+			msg = "the search descends into a child whose constraint differs: a pattern that is not identical up to names to a live route can be rejected as ambiguous"
+		}
+		c.R.Add(rule, c.fk(search), "scenario:"+sc.name+"/"+ifelse(sc.want, "descends", "does-not-descend"), c.P.Pos(search.Pos()), good, msg)
+	}
+}
+
+// ambiguitySearch: the recursive function below Tree.Add whose verdict comes from Segment.IsAmbiguous.
+func ambiguitySearch(c *Ctx) *ssa.Function {
+	verdict := c.P.MustFunc("syntax.(*Segment).IsAmbiguous")
+	g := an.NewGraph(c.P)
+	reach := g.Reach([]*ssa.Function{c.A.TreeAdd}, func(_ *ssa.Function, e an.Edge) bool { return e.Kind == "static" })
+	var search *ssa.Function
+	for _, f := range an.SortedFuncs(reach) {
+		recursive, verdicts := false, false
+		for _, e := range g.Callees(f) {
+			if an.Origin(e.Callee) == an.Origin(f) {
+				recursive = true
+			}
+		}
+		for h := range g.Reach([]*ssa.Function{f}, func(from *ssa.Function, e an.Edge) bool {
+			return e.Kind == "static" && strings.HasPrefix(an.FuncKey(e.Callee), "syntax.")
+		}) {
+			if an.Origin(h) == an.Origin(verdict) {
+				verdicts = true
+			}
+		}
+		if recursive && verdicts && len(f.Params) >= 2 {
+			search = f
+		}
+	}
+	return search
+}
+
+// ruleAmbiguitySearchDiscipline is C17.R8 / R9.
+//
+// R8: what one descent of the ambiguity search returns does not flow into the arguments of the next one — each
+// sibling is examined with the state the search was entered with (a flag overwritten by a sibling that found nothing
+// makes the siblings after it look like literal paths, and the conflict they would report is dropped).
+// R9: every path of Tree.Add to the call that builds nodes runs the ambiguity search on the pattern first (no counter,
+// flag or fast path decides to skip it).
+func ruleAmbiguitySearchDiscipline(c *Ctx, rule8, rule9 string) {
+	a := c.A
+	c.R.Rule(c.R.Property+"."+rule8, 1, "siblings are examined independently by the ambiguity search")
+	c.R.Rule(c.R.Property+"."+rule9, 1, "registration always runs the ambiguity search before it builds nodes")
+	search := ambiguitySearch(c)
+	if search == nil {
+		return // reported by R7
+	}
+	isDescent := func(v ssa.Value) bool {
+		ex, ok := v.(*ssa.Extract)
+		if !ok {
+			return false
+		}
+		call, ok := ex.Tuple.(*ssa.Call)
+		if !ok {
+			return false
+		}
+		g := an.StaticCallee(&call.Call)
+		return g != nil && an.Origin(g) == an.Origin(search)
+	}
+	var tainted func(v ssa.Value, seen map[ssa.Value]bool) bool
+	tainted = func(v ssa.Value, seen map[ssa.Value]bool) bool {
+		if seen[v] {
+			return false
+		}
+		seen[v] = true
+		if isDescent(v) {
+			return true
+		}
+		switch x := v.(type) {
+		case *ssa.Phi:
+			for _, e := range x.Edges {
+				if tainted(e, seen) {
+					return true
+				}
+			}
+			// short-circuit forms (a || b): the value also depends on the condition that chose the edge
+			for _, pred := range x.Block().Preds {
+				if len(pred.Instrs) == 0 {
+					continue
+				}
+				if ifi, ok := pred.Instrs[len(pred.Instrs)-1].(*ssa.If); ok && !strings.HasPrefix(pred.Comment, "range") && !strings.HasPrefix(pred.Comment, "for.") {
+					if tainted(ifi.Cond, seen) {
+						return true
+					}
+				}
+			}
+		case *ssa.BinOp:
+			return tainted(x.X, seen) || tainted(x.Y, seen)
+		case *ssa.UnOp:
+			return tainted(x.X, seen)
+		case *ssa.Slice:
+			return tainted(x.X, seen)
+		}
+		return false
+	}
+	n := 0
+	an.AllInstrs(search, func(in ssa.Instruction) {
+		call, ok := in.(*ssa.Call)
+		if !ok {
+			return
+		}
+		g := an.StaticCallee(&call.Call)
+		if g == nil || an.Origin(g) != an.Origin(search) {
+			return
+		}
+		n++
+		bad := ""
+		for i, arg := range call.Call.Args {
+			if i == 0 {
+				continue // the child descended into
+			}
+			if tainted(arg, map[ssa.Value]bool{}) {
+				bad = c.O.Of(arg).String()
+			}
+		}
+		c.R.Add(rule8, c.fk(search), "descent/arguments-independent-of-earlier-descents", c.pos(in), bad == "", ifelse(bad == "", "the arguments derive from the function's own parameters and the current child", "an argument of the descent ("+bad+") carries the result of an earlier sibling's descent: after a sibling that found nothing, the conflict a later sibling would report is lost"))
+	})
+	// R9
+	var entry *ssa.Function // the function of Tree.Add's cluster that starts the search
+	g := an.NewGraph(c.P)
+	startsSearch := func(in ssa.Instruction) bool {
+		call := an.CallOf(in)
+		if call == nil {
+			return false
+		}
+		callee := an.StaticCallee(call)
+		if callee == nil || !an.InModule(callee) {
+			return false
+		}
+		_, reaches := g.Reach([]*ssa.Function{callee}, func(_ *ssa.Function, e an.Edge) bool { return e.Kind == "static" })[an.Origin(search)]
+		return reaches
+	}
+	_ = entry
+	var builders []ssa.Instruction
+	an.AllInstrs(a.TreeAdd, func(in ssa.Instruction) {
+		call, ok := in.(*ssa.Call)
+		if !ok {
+			return
+		}
+		for _, arg := range call.Call.Args {
+			if sl, isSlice := arg.Type().Underlying().(*types.Slice); isSlice && isPtrToNamed(sl.Elem(), a.SegmentT) {
+				if callee := an.StaticCallee(&call.Call); callee != nil && an.InModule(callee) && strings.HasPrefix(an.FuncKey(callee), a.TreePkg.Name()+".") {
+					builders = append(builders, in)
+				}
+			}
+		}
+	})
+	for _, b := range builders {
+		b := b
+		path := (&an.Query{
+			Target: func(t ssa.Instruction) bool { return t == b },
+			Block:  startsSearch,
+		}).Search(an.Entry(a.TreeAdd))
+		o := c.R.Add(rule9, c.fk(a.TreeAdd), "build-nodes/after-ambiguity-search", c.pos(b), path == nil, ifelse(path == nil, "every path to the node-building call ran the ambiguity search", "nodes can be built for a pattern without the ambiguity search having run (a counter, flag or fast path skips it): a pattern identical up to names to a live route is accepted when the shortcut misjudges"))
+		if path != nil {
+			o.Path = c.P.PathString(path)
+		}
+	}
+	if len(builders) == 0 {
+		c.R.Add(rule9, c.fk(a.TreeAdd), "build-nodes/after-ambiguity-search", c.P.Pos(a.TreeAdd.Pos()), false, "Tree.Add no longer hands parsed segments to a node-building function")
+	}
+}
